@@ -58,6 +58,20 @@ reader:
 	for {
 		typed, _, err := r.ReadTypedMsg()
 		if err != nil {
+			// NOTE: a message exceeding the maximum message size has not been
+			// consumed yet. Its body has to be skipped before the error is
+			// returned, otherwise the body would be interpreted as the next
+			// messages of the connection. The oversized message aborts the
+			// copy-in operation.
+			if exceeded, has := buffer.UnwrapMessageSizeExceeded(err); has {
+				serr := r.Slurp(exceeded.Size)
+				if serr != nil {
+					return serr
+				}
+
+				r.err = err
+			}
+
 			return err
 		}
 
